@@ -46,6 +46,23 @@ pub fn plan_for(go_line: &str, stm: Color) -> Result<u128, String> {
     par::catch(|| crate::uci::verif_parse_go_command(&toks).calculate_time_slice(engine_color(stm)))
 }
 
+/// The move on a `bestmove` line. UCI allows `bestmove <move> ponder <move>`; the properties speak
+/// about "the move on it", so a well-formed ponder suffix is set aside (anything else after the
+/// move stays in the text and makes it malformed).
+pub fn bestmove_text(line: &str) -> String {
+    let t = line.strip_prefix("bestmove").unwrap_or("").trim();
+    let toks: Vec<&str> = t.split(' ').collect();
+    let shaped = |m: &str| {
+        let b = m.as_bytes();
+        m == "0000" || m == "(none)" || ((b.len() == 4 || b.len() == 5) && (b'a'..=b'h').contains(&b[0]) && (b'1'..=b'8').contains(&b[1]) && (b'a'..=b'h').contains(&b[2]) && (b'1'..=b'8').contains(&b[3]) && (b.len() == 4 || b"qrbn".contains(&b[4])))
+    };
+    if toks.len() == 3 && toks[1] == "ponder" && shaped(toks[0]) && shaped(toks[2]) {
+        toks[0].to_string()
+    } else {
+        t.to_string()
+    }
+}
+
 impl Sess {
     pub fn start(bin: &Path, mut opts: SpawnOpts, with_log: bool) -> Result<Sess, String> {
         let mut log_path = None;
@@ -94,7 +111,7 @@ impl Sess {
         let hit = self.eng.wait_for(|l| l.starts_with("bestmove"), budget);
         let bestmove = hit.map(|i| {
             let e = &self.eng.transcript[i];
-            (e.line.strip_prefix("bestmove").unwrap_or("").trim().to_string(), e.t)
+            (bestmove_text(&e.line), e.t)
         });
         GoResult { args: line, plan_ms, t_send, bestmove, n_bestmove_lines: 0, info_lines: vec![], idx_send, root: self.cur.clone() }
     }
@@ -403,7 +420,7 @@ pub fn analyse_log(recs: &[LogRec]) -> Vec<GoLog> {
             "out" => {
                 if r.detail.starts_with("bestmove") && Some(r.tag) == main_tag {
                     if let Some(g) = gos.last_mut() {
-                        g.bestmoves.push((r.t_ns, r.detail.strip_prefix("bestmove").unwrap_or("").trim().to_string()));
+                        g.bestmoves.push((r.t_ns, bestmove_text(&r.detail)));
                         sig_parts.last_mut().unwrap().push("B".into());
                     }
                 }
